@@ -52,4 +52,28 @@ theorem gen_alphabet_answers :
         | some i => (handler genEnv k i).isSome
         | none => false) = true := by decide
 
+/-- **How `apply_optimizer` chooses what it pushes** (optimizer.py): first the total `unfold`, then
+    `optimize_base` layered over the interpretation active AT THE CALL — no other context, no branch on
+    what the caller's interpretation is.  This is the source form `FV.C17.applyOpt` models
+    (`apply_optimizer_falls_through_to_caller`). -/
+theorem gen_apply_optimizer_form :
+    applyOptimizerWith = ["unfold", "PrioritizedInterpretation(optimize_base, get_interpretation())"] ∧
+    applyOptimizerBranches = 0 := by decide
+
+/-- the two names the model of `apply_optimizer` uses: `unfold` is a total chain that (like every
+    chain) ends in `reflect`, `optimize_base` is a partial leaf -/
+theorem gen_apply_optimizer_names :
+    ((match genEnv.named "unfold" with
+      | some i => i.isTotal
+      | none => false) &&
+     leaves.contains "optimize_base") = true := by decide
+
+/-- `unfold` leaves the probe terms sent through `apply_optimizer` alone (phase one returns them as
+    they are), so the model's phase two sees the same term -/
+theorem gen_unfold_leaves_probes_alone :
+    ["a", "b", "bin"].all (fun k =>
+      match genEnv.named "unfold" with
+      | some i => handler genEnv k i == some "reflect"
+      | none => false) = true := by decide
+
 end FV.Props.C17.Tables
